@@ -16,9 +16,17 @@ import (
 type stubLogger struct {
 	level hclog.Level
 	name  string
+	// json, if set, is a real hclog logger in JSON format writing to nowhere:
+	// every message is also formatted by it, as an application's logger would
+	json hclog.Logger
 }
 
 func newLogger(level hclog.Level) hclog.Logger { return &stubLogger{level: level} }
+
+// newJSONLogger is newLogger with a real JSON-format hclog logger behind it.
+func newJSONLogger(level hclog.Level) hclog.Logger {
+	return &stubLogger{level: level, json: hclog.New(&hclog.LoggerOptions{Level: hclog.Trace, JSONFormat: true, Output: io.Discard})}
+}
 
 func (l *stubLogger) Log(level hclog.Level, msg string, args ...interface{}) {
 	if level == hclog.Error {
@@ -26,10 +34,21 @@ func (l *stubLogger) Log(level hclog.Level, msg string, args ...interface{}) {
 	}
 }
 func (l *stubLogger) Trace(msg string, args ...interface{}) {}
-func (l *stubLogger) Debug(msg string, args ...interface{}) {}
-func (l *stubLogger) Info(msg string, args ...interface{})  {}
-func (l *stubLogger) Warn(msg string, args ...interface{})  {}
+func (l *stubLogger) Debug(msg string, args ...interface{}) {
+	if l.json != nil && l.level <= hclog.Debug {
+		l.json.Debug(msg, args...)
+	}
+}
+func (l *stubLogger) Info(msg string, args ...interface{}) {
+	if l.json != nil && l.level <= hclog.Info {
+		l.json.Info(msg, args...)
+	}
+}
+func (l *stubLogger) Warn(msg string, args ...interface{}) {}
 func (l *stubLogger) Error(msg string, args ...interface{}) {
+	if l.json != nil {
+		l.json.Error(msg, args...)
+	}
 	if strings.Contains(msg, "Caught panic") || strings.Contains(strings.ToLower(msg), "panic") {
 		conn := 0
 		for i := 0; i+1 < len(args); i += 2 {
